@@ -61,7 +61,7 @@ def run(prop, path):
         nopath = not rec["universe"][0].get("path", True)
         sfx = (":pathless" if nopath else "") + \
             (":decorated-" + rec["opts"]["decorate"] if rec["opts"].get("decorate") else "")
-        bad = [b for b in bad if f"C14:{b[0]}:{b[1]}{sfx}" not in known]
+        bad = [b for b in bad if f"C14:{b[0]}:{b[1]}{sfx}" not in known and f"C14:{b[0]}:{b[1]}" not in known]
         log(json.dumps(vs["replay"], indent=1)[:3000])
     elif prop == "C15":
         recs, vs = _vector("pure-filter", "Trace_Filter.tla", [dict(payload["record"], id="replay")], cfg="Trace_U.cfg")
